@@ -45,6 +45,7 @@ def main():
     assert rc == 0, out
     env = dict(os.environ, PYTHONPATH=wt, PYTHONDONTWRITEBYTECODE="1")
     res = {"confirmed_at": time.strftime("%Y-%m-%dT%H:%M:%S"), "repo_head": sh("git -C /repo rev-parse --short HEAD")[1].strip()}
+    detected, silent = {}, []
     try:
         rc, out = sh(f"git apply {patch}", cwd=wt)
         res["patch_applies"] = rc == 0
@@ -57,36 +58,32 @@ def main():
         rc1, out1 = sh(f"/venv/bin/python -m pytest -q -p no:cacheprovider -p no:randomly {demo} 2>&1 | tail -3", cwd=wt, env=env)
         res["demo_with_change"] = out1.strip().splitlines()[-1] if out1.strip() else ""
         res["demo_fails_with_change"] = "failed" in out1 or "error" in out1.lower()
-        sh("git checkout -- . && git clean -fdq", cwd=wt)
+        sh(f"git apply -R {patch}", cwd=wt)
         rc2, out2 = sh(f"/venv/bin/python -m pytest -q -p no:cacheprovider -p no:randomly {demo} 2>&1 | tail -3", cwd=wt, env=env)
         res["demo_without_change"] = out2.strip().splitlines()[-1] if out2.strip() else ""
         res["demo_passes_without_change"] = "passed" in out2 and "failed" not in out2
-    except SystemExit:
-        pass
-    finally:
-        sh(f"git -C /repo worktree remove --force {wt}")
-        shutil.rmtree(wt, ignore_errors=True)
-    res["confirmed"] = bool(res.get("patch_applies") and res.get("suite_passes_with_change") and res.get("demo_fails_with_change")
-                            and res.get("demo_passes_without_change"))
-    # run the checks against /repo with the change applied
-    detected, silent = {}, []
-    if res["confirmed"]:
-        rc, out = sh("git -C /repo diff --quiet")
-        assert rc == 0, "/repo has local changes"
-        rc, out = sh(f"git -C /repo apply {patch}")
-        assert rc == 0, out
-        try:
+        res["confirmed"] = bool(res.get("suite_passes_with_change") and res.get("demo_fails_with_change") and res.get("demo_passes_without_change"))
+        if res["confirmed"]:
+            # run the checks against the scratch worktree with the change applied (same code path as /repo: the checks import
+            # whatever PYTHONPATH puts first; SPP_REPO points the file-based parts at the same tree); /repo itself is not touched
+            sh(f"git apply {patch}", cwd=wt)
+            cenv = dict(os.environ, PYTHONPATH=wt, SPP_REPO=wt, VERIF_OUT=f"/tmp/wtout/evalout_{sid}", PYTHONDONTWRITEBYTECODE="1")
             for c in checks:
                 t0 = time.time()
-                rc, out = sh(f"./check {c} --tier {tier}", cwd=VERIF, timeout=7200)
+                rc, out = sh(f"./check {c} --tier {tier}", cwd=VERIF, env=cenv, timeout=7200)
                 viol = [ln for ln in out.splitlines() if ln.startswith("VIOLATION")]
                 classes = [ln.strip()[:260] for ln in out.splitlines() if ln.strip().startswith("class ")][:4]
                 if rc != 0 and viol:
                     detected[c] = {"violations_printed": len(viol), "classes": classes, "wall_s": round(time.time() - t0, 1)}
                 else:
                     silent.append(c)
-        finally:
-            sh("git -C /repo checkout -- . && git -C /repo clean -fdq")
+    except SystemExit:
+        pass
+    finally:
+        sh(f"git -C /repo worktree remove --force {wt}")
+        shutil.rmtree(wt, ignore_errors=True)
+        shutil.rmtree(f"/tmp/wtout/evalout_{sid}", ignore_errors=True)
+    res.setdefault("confirmed", False)
     res["checks_run"] = checks
     res["tier"] = tier
     res["detected_by"] = detected
